@@ -147,7 +147,8 @@ pub struct WalkOpts {
     pub len: usize,
     pub light: bool,
     pub split: bool, // overlay: distribute the constructed state over the layers
-    pub lower_only: bool, // overlay: put the whole constructed state into the lower layers (upper starts empty)
+    pub lower_only: bool,
+    pub ops: Vec<String>, // random mode: restrict the walk to these operations (empty = all) // overlay: put the whole constructed state into the lower layers (upper starts empty)
     pub max_events: u64,
 }
 
@@ -390,9 +391,9 @@ pub fn run_walk(lts: Arc<Lts>, o: Arc<WalkOpts>) -> Value {
                         }
                         let mut cur = si;
                         for _ in 0..o.len {
-                            let es = &lts.edges[cur];
-                            // prefer state-changing edges half of the time
-                            let changing: Vec<&Edge> = es.iter().filter(|e| e.to != cur).collect();
+                            let es: Vec<&Edge> = lts.edges[cur].iter().filter(|e| o.ops.is_empty() || o.ops.contains(&e.op.op)).collect();
+                            // prefer state-changing edges half of the time (with an operation filter: successful ones)
+                            let changing: Vec<&Edge> = es.iter().copied().filter(|e| e.to != cur || (!o.ops.is_empty() && e.allowed.len() == 1 && e.allowed[0] == "ok")).collect();
                             let e: &Edge = if !changing.is_empty() && rng.gen_bool(0.6) { changing.choose(&mut rng).unwrap() } else { es.choose(&mut rng).unwrap() };
                             let ev = sess.step(&e.op);
                             out.put(&ev);
